@@ -187,4 +187,3 @@ func runSeq(cur *atomic.Value, f *ach.File, other *ach.File, seq []string, choic
 		}
 	}
 }
-
